@@ -236,7 +236,7 @@ pub fn run(ctx: &Ctx) {
     }
     // exhaustion histories
     let mut ex: Vec<ExhaustCase> = Vec::new();
-    let shapes: Vec<Vec<Level>> = vec![vec![(8, 2)], vec![(8, 2), (4, 2)], vec![(4, 5)], vec![(8, 2), (8, 2), (8, 2)], vec![(4, 2), (8, 5)], vec![(8, 5), (4, 2)], vec![(4, 5), (8, 2), (4, 2)], vec![(4, 10), (4, 5)]];
+    let shapes: Vec<Vec<Level>> = vec![vec![(8, 2)], vec![(8, 2), (4, 2)], vec![(4, 5)], vec![(8, 2), (8, 2), (8, 2)], vec![(4, 2), (8, 5)], vec![(8, 5), (4, 2)], vec![(4, 5), (8, 2), (4, 2)], vec![(4, 10), (4, 5)], vec![(4, 5); 7], vec![(4, 10), (4, 10), (4, 10), (8, 2)]];
     for h in ALL_HASHES {
         for s in &shapes {
             for t in 0..ctx.tier.pick(6u64, 40u64) {
